@@ -73,11 +73,18 @@ def run_symgo(prop, tier, workdir, overlay, seed):
     if overlay:
         cmd += ['-overlay', overlay]
     env = dict(GOENV, VERIF_TIER=tier, VERIF_SEED=str(seed))
-    r = sh(cmd, env=env, stdout=subprocess.PIPE, stderr=subprocess.STDOUT, text=True)
-    sys.stdout.write(r.stdout)
-    if r.returncode != 0 or not os.path.exists(out):
-        return None, r.stdout
-    return json.load(open(out)), r.stdout
+    if os.environ.get('VERIF_PROGRESS'):
+        env['SYMGO_PROGRESS'] = '1'
+    p = subprocess.Popen(cmd, env=env, stdout=subprocess.PIPE, stderr=subprocess.STDOUT, text=True)
+    lines = []
+    for line in p.stdout:
+        lines.append(line)
+        sys.stdout.write(line)
+        sys.stdout.flush()
+    p.wait()
+    if p.returncode != 0 or not os.path.exists(out):
+        return None, ''.join(lines)
+    return json.load(open(out)), ''.join(lines)
 
 
 class Replayer:
@@ -231,7 +238,7 @@ def do_check(pid, prop, tier, seed, workdir):
             rec['native'] = status
             rec['native_detail'] = detail[:400]
             json.dump(rec, open(path, 'w'), indent=1)
-            expect_native = {'assert': ('reproduced',), 'panic': ('reproduced', 'crash'),
+            expect_native = {'assert': ('reproduced', 'crash', 'hang'), 'panic': ('reproduced', 'crash'),
                              'hang': ('hang', 'reproduced'), 'fatal': ('crash', 'hang', 'reproduced')}[v['kind']]
             if status in expect_native:
                 f = match_finding(pid, rec, findings)
